@@ -149,6 +149,7 @@ func RunOutputCase(seed int64, o OutputOpts) *HistResult {
 		return res
 	}
 	defer os.RemoveAll(dir)
+	retention := seed%5 == 2
 	sizes := []int{0, 1, 2, 100, 4095, 4096, 65535, 65536, 65537, 200000}
 	if o.Big {
 		sizes = append(sizes, 1<<20, 1<<20+1, 8<<20)
@@ -160,6 +161,10 @@ func RunOutputCase(seed int64, o OutputOpts) *HistResult {
 	for p := 0; p < nPipes; p++ {
 		pname := fmt.Sprintf("p%d", p)
 		def := definition.PipelineDef{Concurrency: 1 + r.Intn(3), Tasks: map[string]definition.TaskDef{}, ContinueRunningTasksAfterFailure: true, SourcePath: "gen"}
+		if retention {
+			def.Concurrency = 3
+			def.RetentionCount = 1
+		}
 		nT := 1 + r.Intn(5)
 		perm := r.Perm(len(hostileTaskNames))
 		var names []string
@@ -225,6 +230,17 @@ func RunOutputCase(seed int64, o OutputOpts) *HistResult {
 			def.Tasks[name] = td
 			ots = append(ots, ot)
 		}
+		if retention {
+			// a task that every job has; how slowly it writes is a job variable: the OLDEST job of each pipeline is still
+			// writing when younger jobs have finished and a save retires them
+			name := "steady"
+			pl := EmitPlan{Seed: seed*13 + int64(p), Task: fmt.Sprintf("p%dsteady", p), Cmd: 0, Size: 1500, Lines: true, MaxChunk: 40}
+			a := pl.Args()
+			a[2] = "{{.jobtag}}"
+			a[9] = "{{.slowms}}"
+			def.Tasks[name] = definition.TaskDef{Script: []string{shQuote(o.Exe) + " " + strings.Join(a, " ")}}
+			ots = append(ots, outTask{name: name, plans: []EmitPlan{pl}, reopen: -1})
+		}
 		if p == 0 && r.Intn(3) == 0 {
 			// a slow task that will be canceled: what is stored must be a prefix of what it would have written
 			name := "slow-canceled"
@@ -254,10 +270,19 @@ func RunOutputCase(seed int64, o OutputOpts) *HistResult {
 	type jobInfo struct{ id, pipe, tag string }
 	var jobs []jobInfo
 	nJobs := 1 + r.Intn(6)
+	if retention {
+		nJobs = 4 + r.Intn(3)
+	}
+	seenPipe := map[string]bool{}
 	for i := 0; i < nJobs; i++ {
 		sp := specs[r.Intn(len(specs))]
 		tag := fmt.Sprintf("J%dx%d", i, r.Intn(100000))
-		id, cls := sys.Schedule(0, sp.Name, map[string]interface{}{"jobtag": tag}, "u")
+		slowms := 0
+		if retention && !seenPipe[sp.Name] {
+			slowms = 12
+		}
+		seenPipe[sp.Name] = true
+		id, cls := sys.Schedule(0, sp.Name, map[string]interface{}{"jobtag": tag, "slowms": slowms}, "u")
 		if cls != "ok" {
 			res.Inconclusive = "schedule: " + cls
 			return res
@@ -267,6 +292,17 @@ func RunOutputCase(seed int64, o OutputOpts) *HistResult {
 	var ids []string
 	for _, j := range jobs {
 		ids = append(ids, j.id)
+	}
+	if retention {
+		// saves while the jobs write: they retire finished jobs (with their logs) - and must leave the logs of every job
+		// that is still reported alone, in particular those of jobs that are running right now
+		go func() {
+			for i := 0; i < 40; i++ {
+				time.Sleep(10 * time.Millisecond)
+				sys.Save(1)
+			}
+		}()
+		res.sit("C19", "saves with retention while the jobs write")
 	}
 	canceled := map[string]bool{}
 	if cancelTask != "" {
@@ -291,8 +327,14 @@ func RunOutputCase(seed int64, o OutputOpts) *HistResult {
 		return res
 	}
 	total := 0
+	if retention {
+		time.Sleep(450 * time.Millisecond) // (the saver goroutine has finished its saves by now; shaping only)
+	}
 	for _, j := range jobs {
-		snap, _ := sys.ReadJob(j.id)
+		snap, reported := sys.ReadJob(j.id)
+		if !reported && retention {
+			continue // retired by a save: its logs may be gone
+		}
 		expectedFiles := map[string]bool{}
 		for _, ot := range tasksOf[j.pipe] {
 			ts := snap.Task(ot.name)
